@@ -5,8 +5,10 @@ EXTENDS Spinner
 Fn(k, d, v) == [k |-> k, d |-> d, v |-> v]
 Mk(f, T, ex, sel, st, re) ==
     [k |-> f.k, d |-> f.d, v |-> f.v, T |-> T, extra |-> ex, sel |-> sel, stopAt |-> st, reenter |-> re,
-     busyAt |-> NoStop, busyDt |-> 0]
+     busyAt |-> NoStop, busyDt |-> 0, early |-> FALSE, fireOld |-> NoStop, newSp |-> FALSE]
 Busy(s, b, dt) == [s EXCEPT !.busyAt = b, !.busyDt = dt]
+Early(s, e) == [s EXCEPT !.early = e]
+Later(s, k, n) == [s EXCEPT !.fireOld = k, !.newSp = n]
 
 UpTo2(S) == {e \in SUBSET S : Cardinality(e) <= 2}
 
@@ -59,6 +61,26 @@ ScenCT == {Busy(Mk(f, T, ex, sel, st, FALSE), b, dt) : f \in FnsCT, T \in 1..4, 
                                                        st \in {NoStop} \cup 0..5, b \in 0..3, dt \in 1..4}
 
 NoBusy == {}
+
+\* ---- D: a stop issued by a startup trigger registered before run() (strictly before f is called), for every
+\*      behaviour of f; then a second run - same Spinner or a new one on the same reactor - during which the
+\*      first run's still pending Deferred fires
+FnsD1 == {Fn("ret", 0, "v1"), Fn("ret", 0, "None"), Fn("raise", 0, "e1"), Fn("dnowok", 0, "v1"), Fn("dnowerr", 0, "e1"),
+          Fn("dfire", 1, "v1"), Fn("dfail", 1, "e1"), Fn("dfire", 3, "v1"), Fn("never", 0, "-")}
+ScenD1 == {Early(Mk(f, 2, ex, 0, NoStop, FALSE), e) : f \in FnsD1, ex \in {{}, {5}}, e \in BOOLEAN}
+          \cup {Early(Mk(f, 2, {}, 1, 1, re), TRUE) : f \in FnsD1, re \in BOOLEAN}
+FnsD2 == {Fn("ret", 0, "v2"), Fn("dfire", 2, "v2"), Fn("dfail", 2, "e2"), Fn("never", 0, "-")}
+ScenD2 == {Early(Later(Mk(f, 3, {}, 0, NoStop, FALSE), k, n), e) : f \in FnsD2, k \in {NoStop, 1, 2, 4}, n \in BOOLEAN,
+                                                                  e \in BOOLEAN}
+\* thorough
+ScenD1T == {Early(Mk(f, T, ex, 0, st, FALSE), e) : f \in FnsD1, T \in {1, 2}, ex \in {{}, {5}},
+                                                 st \in {NoStop, 0, 1}, e \in BOOLEAN}
+ScenD2T == {Early(Later(Mk(f, T, {}, 0, st, FALSE), k, n), e) : f \in FnsD2 \cup {Fn("dfire", 1, "v2"), Fn("raise", 0, "e2")},
+                                                   T \in {2, 3}, st \in {NoStop, 1}, k \in {NoStop, 0, 1, 2, 4}, n \in BOOLEAN,
+                                                   e \in BOOLEAN}
+\* smallest shapes for the asCoded (RunBound=FALSE) counterexample
+ScenDC1 == {Mk(Fn("never", 0, "-"), 1, {}, 0, NoStop, FALSE)}
+ScenDC2 == {Later(Mk(Fn("never", 0, "-"), 3, {}, 0, NoStop, FALSE), 1, FALSE)}
 
 \* ---- R: scenarios for the real-reactor tier: all event times pairwise distinct, >= 1 unit apart ---
 Wide(s) == LET ts == <<FnTime(s), s.T, s.stopAt>> IN
